@@ -1,7 +1,7 @@
 """Contracts for snaxc/accelerators/*.py (C08: generated values line up with field names; C04: register maps)."""
 import itertools
 
-from pyvc.api import SYMBOLIC, check, contract, den, implies, mk_ident_value, mk_opresult
+from pyvc.api import SYMBOLIC, check, contract, den, implies, ite, mk_ident_value, mk_opresult
 from xdsl.dialects import arith
 from xdsl.dialects.builtin import ArrayAttr, IndexType, IntegerAttr, i32
 
@@ -297,3 +297,185 @@ class XDMA_setup_vals_match_fields:
 
     def canary(sh, a, ret):
         check("canary: all values are the constant 0", all(den(v) == 0 for _, v in ret))
+
+
+# =====================================================================================
+# GEMMX (snax_gemmx.py): accelerator fields vs generated values (streamer part through its own contract)
+# =====================================================================================
+from pyvc.api import bv_and, bv_const, bv_eq, bv_or, bv_shl, mk_ssa  # noqa: E402
+from xdsl.dialects.builtin import IntegerType  # noqa: E402
+
+from snaxc.accelerators.snax_gemmx import SNAXGEMMXAccelerator  # noqa: E402
+
+GX = {}
+
+
+def set_bv(on):
+    import xdsl.dialects.arith as arith_mod
+    if hasattr(arith_mod, "MODE"):
+        arith_mod.MODE["bv"] = on
+
+
+def streamer_vals_contract(local):
+    """_generate_streamer_setup_vals through its contract (SNAXStreamer_setup_vals_match_fields): one value per
+    declared streamer field - here abstract, distinguishable values"""
+    acc = local["self"]
+    vals = [([], mk_ident_value(5000 + i)) for i in range(len(acc.streamer_setup_fields))]
+    GX["streamer_vals"] = vals
+    return vals
+
+
+def mk_rescale(sym, x, nvals, out_type):
+    return kernel.RescaleOp(x, out_type, sym.int("in_zp", -128, 127), sym.int("out_zp", -128, 127),
+                            [sym.int(f"mult{j}", 0, 1000) for j in range(nvals)], [sym.int(f"shift{j}", 0, 63) for j in range(nvals)],
+                            sym.int("max_int", -128, 127), sym.int("min_int", -128, 127), False)
+
+
+def pack_fields(vals_offs, w=32):
+    r = bv_const(0, w)
+    for v, o in vals_offs:
+        r = bv_or(r, bv_shl(v, o, w), w)
+    return r
+
+
+GEMMX_KERNELS = ("mac_i32", "qmac_i32", "mac_i8_plain", "mac_i8_rescale1", "mac_i8_rescaleN", "qmac_i8_rescale2N", "rescale_only")
+
+
+@contract
+class GEMMX_setup_vals_match_fields:
+    target = "snaxc.accelerators.snax_gemmx.SNAXGEMMXAccelerator._generate_setup_vals"
+    shapes = [dict(kernel=k, n=n, nt=nt) for k in GEMMX_KERNELS for n in (4, 8, 16) for nt in (2, 3) if not (n == 16 and nt == 3)]
+    quick = lambda sh: sh["n"] in (4, 8) and (sh["nt"] == 2 or sh["kernel"] in ("mac_i32", "rescale_only"))
+    total = True
+    compare_ret = False
+    native = False  # the streamer part is replaced by its contract; the arithmetic below is replayed by the bounded stand-in
+    modular = {"snaxc.accelerators.snax.SNAXStreamer._generate_streamer_setup_vals": streamer_vals_contract}
+
+    def args(sh, sym):
+        set_bv(True)
+        n, nt, kind = sh["n"], sh["nt"], sh["kernel"]
+        acc = SNAXGEMMXAccelerator(n=n)
+        ns = len(acc.streamer_config.data.streamers)
+        pats, raw = [], []
+        for k in range(ns):
+            ub = [sym.int(f"ub{k}_{d}", 1) for d in range(nt)]
+            ts = [sym.int(f"ts{k}_{d}") for d in range(nt)]
+            pats.append(StridePattern(ub, ts, [8]))
+            raw.append((ub, ts))
+        x8 = mk_ident_value(3001, i8)
+        acc32 = mk_ident_value(3002, i32)
+        zp_a, zp_b = mk_ssa(sym.bv("zp_a", 32), i32), mk_ssa(sym.bv("zp_b", 32), i32)
+        i8_out = "_i8_" in kind
+        stream8, stream32 = dart.StreamType(IntegerType(8)), dart.StreamType(IntegerType(32))
+        body_ops = []
+        rescale = None
+        if kind == "rescale_only":
+            rescale = mk_rescale(sym, acc32, 1, i8)
+            g = dart.GenericOp([x8], Region([Block([rescale])]), None, None, [stream8])
+            body_ops = [g]
+            out_val = g.outputs[0]
+        else:
+            blk = Block(arg_types=[i8, i8, i32, i32])
+            if kind.startswith("qmac"):
+                kop = kernel.QMacOp.create(operands=[blk.args[0], blk.args[1], blk.args[2], blk.args[3]], result_types=[i32])
+            else:
+                kop = kernel.MacOp.create(operands=[blk.args[0], blk.args[1]], result_types=[i32])
+            blk.add_op(kop)
+            g = dart.GenericOp([x8, x8, zp_a, zp_b], Region([blk]), None, None, [stream32])
+            body_ops = [g]
+            out_val = g.outputs[0]
+            if "rescale" in kind:
+                nvals = 1 if kind.endswith("rescale1") else (n if kind.endswith("rescaleN") else 2 * n)
+                rescale = mk_rescale(sym, acc32, nvals, i8)
+                g2 = dart.GenericOp([out_val], Region([Block([rescale])]), None, None, [stream8])
+                body_ops.append(g2)
+                out_val = g2.outputs[0]
+            elif i8_out:
+                out_val = mk_ident_value(3003, stream8)
+        body_ops.append(dart.YieldOp(out_val))
+        op = XRegionView([mk_ident_value(4000 + k) for k in range(ns)], pats, body_ops)
+        return [acc, op, raw, rescale, zp_a, zp_b]
+
+    def requires(sh, a):
+        acc, op, raw, rescale, zp_a, zp_b = a
+        # is_valid(streaming region): the A stream's number of steps is a multiple of the number of output tiles
+        # (each output tile accumulates a whole number of steps).  Nothing is assumed about the other streams: the
+        # output pattern may list only the tiles it writes.
+        if sh["kernel"] == "rescale_only":
+            return True
+        i8_out = "_i8_" in sh["kernel"]
+        ub, ts = raw[2] if i8_out else raw[len(raw) - 1]
+        M = 1
+        for d in range(len(ub)):
+            M = M * ite(ts[d] != 0, ub[d], 1)
+        return prodl(raw[0][0]) % M == 0
+
+    def run(sh, a):
+        return a[0]._generate_setup_vals(a[1])
+
+    def ensures(sh, a, ret):
+        acc, op, raw, rescale, zp_a, zp_b = a
+        vals, launch_attrs = ret
+        vals = list(vals)
+        fields = list(acc.fields)
+        n, kind = sh["n"], sh["kernel"]
+        check("exactly one value per declared field", len(vals) == len(fields))
+        nsf = len(acc.streamer_setup_fields)
+        check("the streamer values come first, in the streamer's order", all(vals[i][1] is GX["streamer_vals"][i][1] for i in range(min(nsf, len(vals)))))
+        if len(vals) != len(fields):
+            return
+        got = {fields[i]: vals[i][1] for i in range(len(fields))}
+        i8_out = "_i8_" in kind
+        steps = prodl(raw[0][0])
+        if kind == "rescale_only":
+            M = steps
+        else:
+            ub, ts = raw[2] if i8_out else raw[len(raw) - 1]
+            M = 1
+            for d in range(len(ub)):
+                M = M * ite(ts[d] != 0, ub[d], 1)
+        check("N == 1", den(got["N"]) == 1)
+        check("M == product of the output stream's non-reduction bounds", den(got["M"]) == M)
+        check("K*N*M == number of steps of the A stream (loop counts agree with the streams)", den(got["K"]) * den(got["M"]) == steps)
+        w = 32
+        if kind.startswith("qmac"):
+            exp_sub = pack_fields([(bv_and(den(zp_a), 255, w), 0), (bv_and(den(zp_b), 255, w), 8)])
+        else:
+            exp_sub = bv_const(0, w)
+        check("subtractions == zp_b (8 bit) | zp_a (8 bit)", bv_eq(den(got["subtractions"]), exp_sub, w))
+        if rescale is not None:
+            rv = lambda at: getattr(rescale, at).value.data
+            exp_csr0 = pack_fields([(bv_and(rv("min_int"), 255, w), 24), (bv_and(rv("max_int"), 255, w), 16), (bv_and(rv("output_zp"), 255, w), 8), (bv_and(rv("input_zp"), 255, w), 0)])
+            shifts = list(rescale.shift.get_values())
+            mults = list(rescale.multiplier.get_values())
+            dr = rescale.double_round.value.data
+        elif i8_out:
+            exp_csr0 = pack_fields([(bv_and(-128, 255, w), 24), (bv_and(127, 255, w), 16), (0, 8), (0, 0)])
+            shifts, mults, dr = [9], [1], 0
+        else:
+            exp_csr0, shifts, mults, dr = None, None, None, 0
+        if exp_csr0 is None:
+            check("no SIMD: csr0, csr1 are 0, shifts 0, multipliers 1", den(got["csr0"]) == 0 and den(got["csr1"]) == 0
+                  and all(den(got[f"shift_{j}"]) == 0 for j in range(-(-n // 4))) and all(den(got[f"mult_{j}"]) == 1 for j in range(n)))
+        else:
+            check("csr0 == min_int | max_int | out_zp | in_zp (8 bit each)", bv_eq(den(got["csr0"]), exp_csr0, w))
+            check("csr1 == double_round", den(got["csr1"]) == dr)
+            sh_j = lambda j: shifts[j] if len(shifts) > 1 else shifts[0]
+            mu_j = lambda j: mults[j] if len(mults) > 1 else mults[0]
+            for q in range(-(-n // 4)):
+                exp = pack_fields([(sh_j(4 * q + r), 8 * r) for r in range(4) if 4 * q + r < n])
+                check(f"shift_{q} packs the shifts of channels {4 * q}..{4 * q + 3}, 8 bit each, channel {4 * q} lowest", bv_eq(den(got[f"shift_{q}"]), exp, w))
+            for j in range(n):
+                check(f"mult_{j} is the multiplier of channel {j}", den(got[f"mult_{j}"]) == mu_j(j))
+        check("bypassSIMD == 1 exactly when the output is the 32-bit accumulator", den(got["bypassSIMD"]) == (0 if (i8_out or kind == "rescale_only") else 1))
+        check("temporal_loop_bound == number of output tiles when the SIMD unit is used, else 0", den(got["temporal_loop_bound"]) == (M if (i8_out or kind == "rescale_only") else 0))
+
+    def canary(sh, a, ret):
+        check("canary: K is always 1", den(list(ret[0])[len(a[0].streamer_setup_fields)][1]) == 1)
+
+
+def prodl(xs):
+    r = 1
+    for x in xs:
+        r = r * x
+    return r
